@@ -11,7 +11,7 @@ func init() {
 		ID:    "C16",
 		Title: "Entities survive write then read, also compressed, whatever came before",
 		Decided: "C16.a the JSON reader calls UseNumber on the very decoder whose Decode result it returns, before decoding (64-bit integers read into interface{} would otherwise pass through float64); C16.b a pooled gzip reader is Reset onto this request's body before first use and released only when the operation that reads through it is over, and the deflate branch builds a fresh reader per call; " +
-			"C16.c in ReadEntity the result of a decompressor constructor is not touched (not even by a deferred Close) before its error was checked and returned, the accessor's Read error is the method's result, and no explicit panic is reachable from the read path; C16.d the acquire/release discipline of the pooled reader (same obligation as C13.a). C16.e = C13.f; C16.f = C13.d (every reader handed out is fully constructed).",
+			"C16.c in ReadEntity the result of a decompressor constructor is not touched (not even by a deferred Close) before its error was checked and returned, the accessor's Read error is the method's result, and no explicit panic is reachable from the read path; C16.d the acquire/release discipline of the pooled reader (same obligation as C13.a). C16.e = C13.f; C16.f = C13.d (every reader handed out is fully constructed). C16.g a byte container that goes through a sync.Pool is emptied before every Put or after every Get.",
 		NotDecided:  "the round-trip equality itself (a law about encoding/json, encoding/xml and compress/* on runtime values); unicode handling of the codecs.",
 		Assumptions: []string{"gzip.Reader latches a Reset error and returns it from the next Read (library contract): the dropped error of gzipReader.Reset is not a violation"},
 		Rules: []Rule{
@@ -25,6 +25,8 @@ func init() {
 				Doc: "The pooled reader is released exactly once and not before the entity was read (C13.a): a reader released by a helper is handed to the next request while this one still decodes from it."},
 			{ID: "C16.e", Template: "T-OWN", Required: true, Run: ruleNoCompressorCopy,
 				Doc: "Decompressors handed out by the providers are distinct objects, never shallow copies of one reader (same obligations as C13.f): otherwise a gzip body is decoded with a flate state another request is using."},
+			{ID: "C16.g", Template: "T-FRESH", Required: true, Run: rulePooledBytesClean,
+				Doc: "'Never affects how any later request body is decoded': a byte container (bytes.Buffer, []byte, bufio) that goes through a sync.Pool is emptied before every Put or after every Get. A Put on an error path that skips the Reset leaves the bytes of a broken request in front of the next body."},
 			{ID: "C16.f", Template: "T-PROV", Required: true,
 				Doc: "'An error from reading, never a panic': every reader a provider hands out is fully constructed (a primed gzip.Reader from the constructor, not new(gzip.Reader)) - same obligations as C13.d. Close on an unprimed reader dereferences its nil decompressor when the first body it sees has a broken header.",
 				Run: ruleC13d},
